@@ -208,3 +208,12 @@ for _pid, _extra in {
     "C20": "Cookies set by redirect responses (301-308), probed on the next hop and on a later connection.",
 }.items():
     CHECKS[_pid]["text"] += " " + _extra
+
+# entry-point axis (env.open_via): the same options through WebSocket.connect, create_connection and WebSocketApp.run_forever
+for _pid, _extra in {
+    "C10": "Every request is also built through WebSocketApp (header / cookie / subprotocols to the constructor, host / origin / suppress_origin to run_forever).",
+    "C11": "Direct connections also through create_connection and WebSocketApp.run_forever(sslopt=...).",
+    "C18": "Address lists also through WebSocketApp.run_forever(sockopt=...) with the process-wide default timeout.",
+    "C19": "Every connect case also through create_connection and WebSocketApp.run_forever(http_proxy_*=...).",
+}.items():
+    CHECKS[_pid]["text"] += " " + _extra
